@@ -18,6 +18,7 @@ package main
 import (
 	"encoding/json"
 	"fmt"
+	"sync"
 	"time"
 
 	"verif/lib"
@@ -218,4 +219,30 @@ func main() {
 		QuickBudget: 100, ThoroughBudget: 900,
 		Run: run, Replay: replay,
 	})
+}
+
+// failc reports a failure. Failures that carry a precise class (candidates
+// for KNOWN_FINDINGS) are counted per class in the evidence; while a class is
+// not a listed known finding only its first case is reported as a violation,
+// so that one run shows every class (lib stops after 5 violations).
+var classMu sync.Mutex
+var classReported = map[string]bool{}
+
+func failc(c *lib.Ctx, class string, cs any, format string, a ...any) {
+	if class == "" {
+		c.Fail("", cs, format, a...)
+		return
+	}
+	c.Count("classified_failures:"+class, 1)
+	classMu.Lock()
+	done := classReported[class]
+	classMu.Unlock()
+	if done {
+		return
+	}
+	if known := c.Fail(class, cs, format, a...); !known {
+		classMu.Lock()
+		classReported[class] = true
+		classMu.Unlock()
+	}
 }
